@@ -194,6 +194,40 @@ def inline_body(facts, key, opaque):
                     done.append(target)
                     progress = True
                     break
+            if path == "std::mem::replace" and len(t["args"]) == 2 and not t["dest"]["proj"] and t.get("target") is not None:
+                # `old = mem::replace(&mut x, v)`  ==  `old = x; x = v`   (rust-src core/src/mem/mod.rs: ptr::read + ptr::write)
+                # applied when the borrow is a temporary taken in this very block for this call only
+                a0 = t["args"][0]
+                if a0["o"] == "move" and not a0["place"]["proj"]:
+                    tmp = a0["place"]["l"]
+                    stm = blocks[b]["stmts"]
+                    drop_idx = []
+                    tgt = None
+                    for _ in range(3):   # `_a = &mut x; _b = &mut *_a; replace(move _b, v)`
+                        refs = [i for i, st in enumerate(stm) if st.get("s") == "assign" and st["place"]["l"] == tmp and not st["place"]["proj"]]
+                        uses = sum(1 for bl2 in blocks for st in bl2["stmts"] if _mentions_local(st, tmp)) + sum(1 for bl2 in blocks if _mentions_local(bl2["term"], tmp))
+                        if len(refs) != 1 or uses != 2:
+                            break
+                        rv = stm[refs[0]]["rv"]
+                        if rv["r"] != "ref" or rv["bk"] != "mut":
+                            break
+                        drop_idx.append(refs[0])
+                        if not any(p_.get("p") == "deref" for p_ in rv["place"]["proj"]):
+                            tgt = copy.deepcopy(rv["place"])
+                            break
+                        if [p_.get("p") for p_ in rv["place"]["proj"]] != ["deref"]:
+                            break
+                        tmp = rv["place"]["l"]
+                    if tgt is not None and not any(_mentions_local(st, tgt["l"]) for i, st in enumerate(stm) if i > min(drop_idx) and i not in drop_idx):
+                        line = stm[drop_idx[0]].get("line")
+                        stmts = [st for i, st in enumerate(stm) if i not in drop_idx]
+                        stmts.append({"s": "assign", "place": copy.deepcopy(t["dest"]), "rv": {"r": "use", "op": {"o": "copy", "place": copy.deepcopy(tgt)}}, "line": line, "model": True})
+                        stmts.append({"s": "assign", "place": tgt, "rv": {"r": "use", "op": copy.deepcopy(t["args"][1])}, "line": line, "model": True})
+                        blocks[b]["stmts"] = stmts
+                        blocks[b]["term"] = {"t": "goto", "target": t["target"]}
+                        done.append("std-model:mem::replace")
+                        progress = True
+                        break
             if path in STD_MODELS and not t["dest"]["proj"]:
                 cj = STD_MODELS[path](blocks[b].get("span"))
                 if cj["arg_count"] == len(t["args"]):
@@ -526,6 +560,77 @@ def _tuple_arity(ty):
     return n
 
 
+def _mentions_local(x, local):
+    if isinstance(x, dict):
+        if "l" in x and "proj" in x and x["l"] == local:
+            return True
+        return any(_mentions_local(v, local) for v in x.values())
+    if isinstance(x, list):
+        return any(_mentions_local(v, local) for v in x)
+    return False
+
+
+def _consumed_closures(bodies):
+    made = {}      # closure key -> still handed to somebody (True) / only spliced (False)
+    for k, j in bodies.items():
+        holders = {}   # local -> closure key it holds (or a reference to it)
+        for bl in j["blocks"]:
+            for st in bl["stmts"]:
+                if st.get("s") == "assign" and st["rv"]["r"] == "aggregate" and st["rv"].get("ak") == "closure" and not st["place"]["proj"]:
+                    holders[st["place"]["l"]] = st["rv"]["path"]
+                    made.setdefault(st["rv"]["path"], False)
+        if not holders:
+            continue
+        changed = True
+        while changed:
+            changed = False
+            for bl in j["blocks"]:
+                for st in bl["stmts"]:
+                    if st.get("s") != "assign" or st["place"]["l"] in holders:
+                        continue
+                    rv = st["rv"]
+                    src = None
+                    if rv["r"] == "use" and rv["op"]["o"] in ("copy", "move") and not rv["op"]["place"]["proj"]:
+                        src = rv["op"]["place"]["l"]
+                    elif rv["r"] == "ref" and all(p_.get("p") == "deref" for p_ in rv["place"]["proj"]):
+                        src = rv["place"]["l"]
+                    if src in holders:
+                        if st["place"]["proj"]:
+                            made[holders[src]] = True      # stored into a field of something else
+                        else:
+                            holders[st["place"]["l"]] = holders[src]
+                            changed = True
+        def ops_of(x):
+            if isinstance(x, dict):
+                if x.get("o") in ("copy", "move") and "place" in x:
+                    yield x["place"]
+                for v in x.values():
+                    for y in ops_of(v):
+                        yield y
+            elif isinstance(x, list):
+                for v in x:
+                    for y in ops_of(v):
+                        yield y
+        for bl in j["blocks"]:
+            if bl.get("dead"):
+                continue
+            t = bl["term"]
+            if t["t"] == "call":
+                for pl in ops_of(t["args"]):
+                    if pl["l"] in holders and not pl["proj"]:
+                        made[holders[pl["l"]]] = True
+                if "place" in t["callee"] and t["callee"]["place"]["l"] in holders:
+                    made[holders[t["callee"]["place"]["l"]]] = True
+            for st in bl["stmts"]:
+                if st.get("s") == "assign" and st["rv"]["r"] == "aggregate" and st["rv"].get("ak") != "closure":
+                    for pl in ops_of(st["rv"]["ops"]):
+                        if pl["l"] in holders and not pl["proj"]:
+                            made[holders[pl["l"]]] = True
+        if 0 in holders:
+            made[holders[0]] = True
+    return [c for c, live in made.items() if not live and c in bodies]
+
+
 def inlined_facts(facts, opaque):
     """A Facts object for the equivalent program in which private helpers outside `opaque` are inlined."""
     newb = {}
@@ -541,11 +646,35 @@ def inlined_facts(facts, opaque):
             continue
         newb[k] = dict(j, blocks=blocks, locals=locals_)
         report[k] = done
+    # push loops over a computed item -> extend(map(..)) with a synthetic closure (purlsa.roll.roll_map_push_loops)
+    from . import roll
+    synth = {}
+    for k, j in facts.j["bodies"].items():
+        if j["kind"] not in ("fn", "closure"):
+            continue
+        cur = newb.get(k, j)
+        if not any(bl["term"]["t"] == "call" and not bl["cleanup"] and ((bl["term"]["callee"].get("resolved") or {}).get("path") or bl["term"]["callee"].get("path") or "") in roll.PUSHES for bl in cur["blocks"]):
+            continue
+        cand = dict(cur, blocks=copy.deepcopy(cur["blocks"]), locals=copy.deepcopy(cur["locals"]))
+        view = Body(facts, k, cand, ssa=False)
+        made = roll.roll_map_push_loops(view, k, j.get("root", k))
+        if made:
+            cand["blocks"], cand["locals"] = view.blocks, view.locals
+            newb[k] = cand
+            report.setdefault(k, []).append("rolled-map-loop")
+            for ck, cj in made:
+                synth[ck] = cj
     if not newb:
         return None, {}
     j2 = dict(facts.j)
     j2["bodies"] = dict(facts.j["bodies"])
     j2["bodies"].update(newb)
+    j2["bodies"].update(synth)
+    # a closure whose every construction site had its call spliced in no longer runs as a body of its own: its code is
+    # in the parent now, under the parent's path conditions, and analysing the orphan again would judge it without them
+    for c in _consumed_closures(j2["bodies"]):
+        del j2["bodies"][c]
+        report.setdefault(c, []).append("consumed")
     f2 = Facts(j2, facts.path)
     f2.extract_s = getattr(facts, "extract_s", 0)
     f2.inlined = report
